@@ -28,6 +28,7 @@ structure St where
   -- ghost
   emitted : List Nat
   discarded : List Nat       -- `event_discarded` counts these
+  closedDrop : List Nat      -- routed to a signal whose channel was already closed (its receiver is gone): `send` returns
 
 def St.get (s : St) : Signal → OtlpPipe.St
   | .logs => s.logs | .traces => s.traces | .metrics => s.metrics
@@ -38,7 +39,7 @@ def St.set (s : St) (g : Signal) (p : OtlpPipe.St) : St :=
 
 def init (net0 : Signal → Net) : St :=
   { logs := OtlpPipe.init (net0 .logs), traces := OtlpPipe.init (net0 .traces), metrics := OtlpPipe.init (net0 .metrics),
-    emitted := [], discarded := [] }
+    emitted := [], discarded := [], closedDrop := [] }
 
 inductive Label where
   | emit (x : Nat)
@@ -56,7 +57,9 @@ def step (cfg : Cfg) (s : St) : Label → Option St
     | .discard => some { s with emitted := s.emitted ++ [x], discarded := s.discarded ++ [x] }
     | .signal g =>
       (OtlpPipe.step (cfg.pipe g) (s.get g) (.chan (.send x))).map fun p =>
-        { s.set g p with emitted := s.emitted ++ [x] }
+        { s.set g p with emitted := s.emitted ++ [x],
+                         closedDrop := if p.ch.accepted.length = (s.get g).ch.accepted.length then s.closedDrop ++ [x]
+                                       else s.closedDrop }
   | .sig g l => if isSend l then none else (OtlpPipe.step (cfg.pipe g) (s.get g) l).map fun p => s.set g p
 
 def Reachable (cfg : Cfg) (net0 : Signal → Net) (s : St) : Prop := Sched.Reachable (step cfg) (init net0) s
